@@ -2343,6 +2343,31 @@ def _bs_iter(E, bs):
     return ListIter([IntV(x, 'u64') for x in out])
 
 
+@model('re:^<&?BitField as BitOr(<&?BitField>)?>::bitor$', 're:^<BitField as BitOrAssign(<&?BitField>)?>::bitor_assign$')
+def _(E, c):
+    a, b = _bitset(E, c.args[0]), _bitset(E, c.args[1])
+    if isinstance(a, BitSetV) and isinstance(b, BitSetV):
+        bits = list(a.bits)
+        cur = BitSetV(bits)
+        for x in b.bits:
+            if not _bs_has(E, cur, x):
+                bits.append(x)
+                cur = BitSetV(bits)
+        r = cur
+    elif isinstance(a, BitFieldV) and isinstance(b, BitFieldV):
+        nm = E.ctx.fresh_name('bf_or')
+        n = z3.Int(nm + '#card')
+        ca, cb = z3.Int(a.name + '#card'), z3.Int(b.name + '#card')
+        E.ctx.assume(z3.And(n >= ca, n >= cb, n <= ca + cb))
+        r = BitFieldV(nm)
+    else:
+        return NotImplemented
+    if c.callee.idents[-1] == 'bitor_assign':
+        E.store(c.args[0], r)
+        return UNIT
+    return r
+
+
 AS_ITER[BitSetV] = _bs_iter
 
 
